@@ -364,6 +364,15 @@ class ExecutionContext:
                             assert isinstance(value, list)
                             var.append(value)
                         localScope[ref] = var
+                    elif (
+                        instruction.Type.Kind == LinearIR.TypeKind.Scalar
+                        and len(instruction.Values) == 1
+                    ):
+                        # int(x), float(x): the argument has already been
+                        # converted to the scalar type
+                        localScope[ref] = localScope[
+                            instruction.Values[0].Reference
+                        ]
                     else:
                         Errors.ERROR_INTERNAL_COMPILER_ERROR.Raise(
                             f"Cannot construct primitive of type: {instruction.Type}"
